@@ -92,6 +92,71 @@ def build_action(case):
     return action, req
 
 
+NS_DEV = "urn:schemas-upnp-org:device-1-0"
+
+
+class _DocRequester(_Requester):
+    """serves the description documents on GET and records everything else like _Requester"""
+
+    def __init__(self, st, action, docs):
+        super().__init__(st, action)
+        self._docs = docs
+
+    async def async_http_request(self, method, url, headers=None, body=None):
+        if method == "GET":
+            doc = self._docs.get(url)
+            return (200, {}, doc) if doc is not None else (404, {}, "")
+        return await super().async_http_request(method, url, headers, body)
+
+
+def _plain_for_xml(text):
+    # texts an XML document hands back unchanged (no white-space normalisation, nothing the factory strips)
+    return isinstance(text, str) and text == text.strip() and text != "" and not any(ch in text for ch in "\r\n\t\x00") \
+        and all(ord(ch) >= 32 for ch in text)
+
+
+def build_action_via_documents(case):
+    """The same action, but built the way a user gets it: UpnpFactory.async_create_device over a description document and an
+    SCPD document served by the requester - optionally with a SIBLING service declared after it in the same device that
+    names the SAME SCPD document under another service type and control URL.  What a call sends must not depend on that."""
+    from async_upnp_client.client_factory import UpnpFactory
+    sib = case.get("sibling")
+    texts = [case["st"], case["action"], case["ctrl"]] + [a["name"] for a in case["args"]] + ([sib["st"], sib["ctrl"]] if sib else [])
+    if not all(_plain_for_xml(t) for t in texts) or len({a["name"] for a in case["args"]}) != len(case["args"]):
+        raise ValueError("not expressible as documents")
+    scpd = ET.Element(f"{{{NS_SVC}}}scpd")
+    al = ET.SubElement(scpd, f"{{{NS_SVC}}}actionList")
+    ael = ET.SubElement(al, f"{{{NS_SVC}}}action")
+    ET.SubElement(ael, f"{{{NS_SVC}}}name").text = case["action"]
+    argl = ET.SubElement(ael, f"{{{NS_SVC}}}argumentList")
+    table = ET.SubElement(scpd, f"{{{NS_SVC}}}serviceStateTable")
+    for i, arg in enumerate(case["args"]):
+        table.append(_sv_el(i, arg))
+        a = ET.SubElement(argl, f"{{{NS_SVC}}}argument")
+        ET.SubElement(a, f"{{{NS_SVC}}}name").text = arg["name"]
+        ET.SubElement(a, f"{{{NS_SVC}}}direction").text = arg["dir"]
+        ET.SubElement(a, f"{{{NS_SVC}}}relatedStateVariable").text = f"V{i}"
+    root = ET.Element(f"{{{NS_DEV}}}root")
+    dev = ET.SubElement(root, f"{{{NS_DEV}}}device")
+    for tag, text in (("deviceType", "urn:schemas-upnp-org:device:D:1"), ("friendlyName", "n"), ("manufacturer", "m"),
+                      ("modelName", "mn"), ("UDN", "uuid:d")):
+        ET.SubElement(dev, f"{{{NS_DEV}}}{tag}").text = text
+    sl = ET.SubElement(dev, f"{{{NS_DEV}}}serviceList")
+    for k, (st, ctrl) in enumerate([(case["st"], case["ctrl"])] + ([(sib["st"], sib["ctrl"])] if sib else [])):
+        sv = ET.SubElement(sl, f"{{{NS_DEV}}}service")
+        for tag, text in (("serviceType", st), ("serviceId", f"urn:upnp-org:serviceId:S{k}"), ("controlURL", ctrl),
+                          ("eventSubURL", f"/evt{k}"), ("SCPDURL", "/scpd.xml")):
+            ET.SubElement(sv, f"{{{NS_DEV}}}{tag}").text = text
+    docs = {case["base"]: ET.tostring(root, encoding="unicode"),
+            urllib.parse.urljoin(case["base"], "/scpd.xml"): ET.tostring(scpd, encoding="unicode")}
+    req = _DocRequester(case["st"], case["action"], docs)
+    factory = UpnpFactory(req, non_strict=not case["strict"])
+    device = _loop().run_until_complete(factory.async_create_device(case["base"]))
+    action = device.service(case["st"]).action(case["action"])
+    action._verif_move = lambda: None  # noqa: SLF001
+    return action, req
+
+
 def canon_tree(el):
     tag = el.tag
     ns, local = (tag[1:].split("}", 1) if tag.startswith("{") else ("", tag))
@@ -276,6 +341,11 @@ class Plugin:
             rng.shuffle(case["kwargs"])
         if rng.random() < 0.35:
             self._add_prime(rng, case)
+        if rng.random() < 0.3 and not case.get("prime_base"):
+            case["via_documents"] = True
+            if rng.random() < 0.6:
+                case["sibling"] = {"st": rng.choice([t for t in SERVICE_TYPES[:5] if t != case["st"]]),
+                                   "ctrl": rng.choice([c for c in CTRLS if c and c != case["ctrl"]])}
         if malformed:
             k = rng.randrange(5)
             if k == 0:
@@ -439,6 +509,13 @@ class Plugin:
             action, req = build_action(case)
         except Exception as e:  # noqa: BLE001
             return {"kind": "create_failed", "exn": type(e).__name__}
+        if case.get("via_documents") and not case.get("prime_base"):
+            # the same action reached through the public factory API (and a sibling service sharing its SCPD document);
+            # where the case cannot be written as documents the directly built objects above are used
+            try:
+                action, req = build_action_via_documents(case)
+            except Exception:  # noqa: BLE001
+                pass
         # earlier calls on the same action object: the outcome of a call must not depend on them
         for pk in case.get("prime", []):
             try:
@@ -565,9 +642,20 @@ class Plugin:
         return {"outcomes": kinds, "in_arguments": dict(sorted(n_in.items())), "in_argument_types": types, "value_kinds": vals,
                 "with_earlier_calls": sum(1 for c in cases if c.get("prime")),
                 "device_moved_before_call": sum(1 for c in cases if c.get("prime_base")),
+                "built_through_description_documents": sum(1 for c in cases if c.get("via_documents")),
+                "with_sibling_service_sharing_the_scpd": sum(1 for c in cases if c.get("sibling")),
                 "non_strict": sum(1 for c in cases if not c["strict"])}
 
     def shrink(self, case):
+        if case.get("sibling"):
+            c = json.loads(json.dumps(case))
+            del c["sibling"]
+            yield c
+        if case.get("via_documents"):
+            c = json.loads(json.dumps(case))
+            del c["via_documents"]
+            c.pop("sibling", None)
+            yield c
         if case.get("prime_base"):
             c = json.loads(json.dumps(case))
             del c["prime_base"]
